@@ -52,6 +52,15 @@ func init() {
 	register(&Property{ID: "C01", Level: "exploration", World: c01World, Replay: c01Replay,
 		Worlds: map[string]int{"quick": 2500, "thorough": 12000}, Batch: map[string]int{"quick": 1, "thorough": 4},
 		Rule: "worlds = generated program x layout x reader distribution x completion schedule, each run over all model-legal choice paths (<=64 leaves) or 8 sampled ones; a case is a (program, path); non-trivial = constructs nested >=2 deep, or a jump inside a nested body, or an option group ending an if/option body; distinct by hash of (program AST, choices)"})
+	register(&Property{ID: "C03", Level: "exploration", World: c03World, Replay: func(p *Plan) *Violation { return c03Exec(p, nil) },
+		Worlds: map[string]int{"quick": 3000, "thorough": 15000}, Batch: map[string]int{"quick": 1, "thorough": 4},
+		Rule: "worlds = set/declare-heavy generated program (all six operators, typed and ill-typed, known and unknown variables) x host schedule with interleaved host-side writes (same type, new name, other type, clear) x storer kind (recording storer / host-held InMemoryStorer); after every op the storer's content is compared bit-exactly with the model store; non-trivial = >=3 assignments and (>=1 host write or a failing statement); distinct by hash of (program, ops)"})
+	register(&Property{ID: "C06", Level: "exploration", World: c06World, Replay: func(p *Plan) *Violation { return c06Exec(p, nil) },
+		Worlds: map[string]int{"quick": 3000, "thorough": 15000}, Batch: map[string]int{"quick": 1, "thorough": 4},
+		Rule: "worlds = generated program with 1-2 fault sites (ill-typed operands, unknown variable/function/node/command, wrong arity or argument type, null, empty or overflowing random ranges, value-less or failing host function, non-boolean condition, bad wait arguments) at any depth, plus host faults (store cleared, other-type or markup-laden values written between steps); the model names the op of the first fault: an error is required there (or no panic where the properties leave the outcome open), then 8 further calls must not panic; non-trivial = the fault site was reached on the driven path; distinct by hash of (program, ops)"})
+	register(&Property{ID: "C10", Level: "exploration", World: c10World, Replay: func(p *Plan) *Violation { return c10Exec(p, nil) },
+		Worlds: map[string]int{"quick": 2500, "thorough": 12000}, Batch: map[string]int{"quick": 1, "thorough": 4},
+		Rule: "worlds = command-heavy generated program x handler shapes (raw pre-filled / buffered / unbuffered channel, converted func(), func() error, func() chan error, func() <-chan error, typed and variadic parameters) x completion schedule per invocation (immediate, after 0-4 polls, nil or error) x host ops between polls (writes, clock advances) x <<wait n>> polled 1ns/1us before and after its deadline, all inside a testing/synctest bubble; each world is run again under another completion schedule and the two real traces are compared; non-trivial = >=1 invocation or wait and >=1 poll while pending; distinct by hash of (program, ops)"})
 }
 
 // capTB lets rapid.Check report into the harness instead of failing the test.
